@@ -93,10 +93,14 @@ def gen_plan(rng, tier, idx, opts):
         r = rng.random()
         if r < 0.45:
             plan["ops"].append({"op": "time", "n": rng.randint(1, 200) if rng.random() < 0.7 else rng.randint(1, 8), "seed": s()})
+            if rng.random() < 0.15:
+                plan["ops"][-1]["no_fetch"] = True      # the caller does not ask for the response of this transmission
         elif r < 0.75:
             fft = rng.choice([4, 8, 8, 16, 32, 64])
             sel = gen_sel(rng, fft)
             plan["ops"].append({"op": "freq", "fft": fft, "sel": sel, "blocks": rng.randint(1, 4), "seed": s()})
+            if rng.random() < 0.15:
+                plan["ops"][-1]["no_fetch"] = True
         elif r < 0.87:
             if rng.random() < 0.2:      # a REJECTED setter (non-bool): the fault-like event of this world
                 plan["ops"].append({"op": "switch_bad", "v": rng.choice(["int1", "int0", "none", "np_true", "str"])})
@@ -383,6 +387,18 @@ def execute(plan):
                 else:
                     y = ch.corrupt_data_in_freq_domain(sig.copy(), fft, pysel)
                 tx_count += 1
+                if op.get("no_fetch"):
+                    # nothing is read back: only the NEXT transmission's report is checked (a report assembled lazily must
+                    # not carry anything over from this one)
+                    exp_len0 = n + D - 1 if o == "time" else n
+                    got0 = np.asarray(y[0]) if multi else np.asarray(y)
+                    if got0.shape[-1] != exp_len0:
+                        viol("length", step, "output has %d samples, expected %d" % (got0.shape[-1], exp_len0), op=o)
+                        break
+                    bump(res["probes"], "transmission_without_fetching_the_response")
+                    last_kind = o
+                    log.add(o, n, switched, "no_fetch")
+                    continue
                 # ---- the response reported for THIS transmission ---------------------
                 exp_len = n + D - 1 if o == "time" else n
                 nsamp = n if o == "time" else op["blocks"]
